@@ -106,3 +106,75 @@ def calledWith (tr : List Tok) (name a0 : String) : Bool :=
 def assigned (tr : List Tok) (target : String) : Bool := tr.any (fun t => t.1 == "set" && t.2.1 == target)
 
 end Modbus.Skel
+
+/-! ### condition-table interpreter (used by Props/C16Tie)
+
+  Like `exec`, but every `if` is answered by a table `cond` from the condition TEXT (and the tokens
+  executed so far) to its outcome. A condition the table does not know makes the whole evaluation
+  `none`, and so do a loop and an exhausted fuel: a changed or new condition in the Go source then
+  breaks the theorem instead of being defaulted silently. -/
+namespace Modbus.Skel
+
+structure CRun where
+  trace    : List Tok
+  returned : Bool
+  deriving Repr, DecidableEq
+
+mutual
+  def condNodes : Nat → List Node → String → (List Tok → String → Option Bool) → CRun → Option CRun
+    | 0, _, _, _, _ => none
+    | _+1, [], _, _, r => some r
+    | fuel+1, n :: ns, kind, cond, r =>
+      if r.returned then some r
+      else match condNode fuel n kind cond r with
+        | none => none
+        | some r' => condNodes fuel ns kind cond r'
+  def condNode : Nat → Node → String → (List Tok → String → Option Bool) → CRun → Option CRun
+    | 0, _, _, _, _ => none
+    | _+1, .atom s, _, _, r => some { r with trace := r.trace ++ [s] }
+    | _+1, .ret, _, _, r => some { r with returned := true }
+    | fuel+1, .ifN c thn els, kind, cond, r =>
+      match cond r.trace c with
+      | none => none                                   -- unknown condition text
+      | some b => condNodes fuel (if b then thn else els) kind cond r
+    | _+1, .loop _, _, _, _ => none                    -- no loops in the functions this is used for
+    | fuel+1, .sw cases, kind, cond, r =>
+      match cases.find? (fun c => c.1.contains kind) with
+      | some c => condNodes fuel c.2 kind cond r
+      | none =>
+        match cases.find? (fun c => c.1 == ["default"]) with
+        | some c => condNodes fuel c.2 kind cond r
+        | none => some r
+end
+
+/-- executed atomic tokens and "a `return` statement was executed" (the trace ends there), for the
+    switch value `kind`; each condition is answered from its text and the tokens executed so far -/
+def execCondT (toks : List Tok) (kind : String) (cond : List Tok → String → Option Bool) :
+    Option (List Tok × Bool) :=
+  (condNodes (4 * toks.length + 4) (parse toks) kind cond { trace := [], returned := false }).map
+    (fun r => (r.trace, r.returned))
+
+/-- the same with a table that looks at the condition text only -/
+def execCond (toks : List Tok) (kind : String) (cond : String → Option Bool) : Option (List Tok × Bool) :=
+  execCondT toks kind (fun _ s => cond s)
+
+/-- the tag expressions of the `switch` statements of a skeleton, in source order -/
+def switchTags (toks : List Tok) : List String := (toks.filter (fun t => t.1 == "switch")).map (·.2.1)
+
+mutual
+  /-- every `case` value (and "default") of every switch below these nodes -/
+  def labelsNodes : List Node → List String
+    | [] => []
+    | n :: ns => labelsNode n ++ labelsNodes ns
+  def labelsNode : Node → List String
+    | .atom _ => []
+    | .ret => []
+    | .ifN _ thn els => labelsNodes thn ++ labelsNodes els
+    | .loop body => labelsNodes body
+    | .sw cases => labelsCases cases
+  def labelsCases : List (List String × List Node) → List String
+    | [] => []
+    | c :: cs => c.1 ++ labelsNodes c.2 ++ labelsCases cs
+end
+
+end Modbus.Skel
